@@ -336,6 +336,13 @@ def main_entry(run_fn_by_prop):
     try:
         rc = fn(ctx)
     except Infra as e:
+        if ctx.violations:
+            # mismatches between the real code and the specification that were established (and saved as replay
+            # cases) BEFORE a later stage of the check broke down remain what they are; the breakdown is reported
+            # next to them and the stages after it did not run
+            print("INFRASTRUCTURE FAILURE in a later stage (the violations below were established before it): %s" % str(e)[:1500])
+            ctx.notes["infrastructure_failure"] = str(e)[:3000]
+            sys.exit(ctx.finish("exploration"))
         print("INFRASTRUCTURE FAILURE (exit 2, not a verdict): %s" % e)
         sys.exit(2)
     sys.exit(rc)
